@@ -409,4 +409,13 @@ def cases(tier):
                     out.append({"mode": "hist", "build": b, "locs": LOCS, "defs": [list(c) for c in combo], "K": K})
                     if k <= 1 or n % 64 == 0:
                         out.append({"mode": "hist", "build": b, "locs": LOCS, "defs": [list(c) for c in combo], "K": K, "frozen": True})
+        # chains of three definitions on members of ONE nested container, in every registration order: the order
+        # in which such tasks run follows the insertion order of the indices (open finding C01-false-cycle), so
+        # a copy whose indices are rebuilt in another order behaves differently although every query agrees
+        SIB = ["a", "n.x", "n.y", "n.z"]
+        chain = [["n.x", ["mul", ["loc", "a"], ["const", 2]]], ["n.y", ["add", ["loc", "n.x"], ["const", 1]]], ["n.z", ["mul", ["loc", "n.y"], ["const", 3]]]]
+        fan = [["n.x", ["mul", ["loc", "a"], ["const", 2]]], ["n.y", ["add", ["loc", "n.x"], ["loc", "a"]]], ["n.z", ["sub", ["loc", "n.y"], ["loc", "n.x"]]]]
+        for shape in (chain, fan):
+            for perm in itertools.permutations(shape):
+                out.append({"mode": "hist", "build": b, "locs": SIB, "defs": [list(x) for x in perm], "K": 1, "siblings": True})
     return out
